@@ -4,11 +4,20 @@ import (
 	"bufio"
 	"fmt"
 	"io"
+	"os"
 	"os/exec"
 	"strconv"
 	"strings"
 	"time"
 )
+
+var dumpFile *os.File
+
+func init() {
+	if p := os.Getenv("GOSX_DUMP"); p != "" {
+		dumpFile, _ = os.Create(p)
+	}
+}
 
 type Result int
 
@@ -90,20 +99,14 @@ func (s *Solver) Reset() {
 	}
 }
 
-// Assert adds t to the permanent context of the current path (buffered until the next query).
-func (s *Solver) Assert(t *Term) {
-	if t.IsTrue() {
-		return
-	}
-	r := s.w.Ref(t)
-	s.w.Emit("(assert " + r + ")\n")
-}
-
 // roundTrip sends the pending text plus cmd and returns the output lines up to the sync marker.
 func (s *Solver) roundTrip(cmd string) ([]string, error) {
 	s.seq++
 	marker := fmt.Sprintf("<<sync %d>>", s.seq)
 	txt := s.w.Take() + cmd + fmt.Sprintf("(echo \"%s\")\n", marker)
+	if dumpFile != nil {
+		dumpFile.WriteString(txt)
+	}
 	if _, err := io.WriteString(s.in, txt); err != nil {
 		return nil, err
 	}
@@ -123,44 +126,66 @@ func (s *Solver) roundTrip(cmd string) ([]string, error) {
 	}
 }
 
-// Check decides satisfiability of (context AND extra). wantModel lists variables whose values are wanted on sat.
-func (s *Solver) Check(extra *Term, wantModel []*Term) (Result, map[string]uint64, error) {
+// Check decides satisfiability of (assumptions AND extra) in one round trip.
+// wantModel lists variables whose values are wanted on sat.
+func (s *Solver) Check(extra *Term, assumptions []*Term, wantModel []*Term) (Result, map[string]uint64, error) {
 	start := time.Now()
 	defer func() { s.Time += time.Since(start) }()
 	s.Queries++
-	ref := ""
-	if extra != nil {
-		ref = s.w.Ref(extra)
+	var refs []string
+	for _, a := range assumptions {
+		if a.IsTrue() {
+			continue
+		}
+		refs = append(refs, s.w.Ref(a))
+	}
+	if extra != nil && !extra.IsTrue() {
+		refs = append(refs, s.w.Ref(extra))
 	}
 	var names []string
-	if len(wantModel) > 0 {
-		for _, v := range wantModel {
-			names = append(names, s.w.Ref(v))
-		}
+	for _, v := range wantModel {
+		names = append(names, s.w.Ref(v))
 	}
-	// definitions emitted by Ref above live in the permanent context (harmless); only the assertion is scoped.
-	cmd := "(push 1)\n"
-	if ref != "" {
-		cmd += "(assert " + ref + ")\n"
+	var sb strings.Builder
+	sb.WriteString("(push 1)\n")
+	for _, r := range refs {
+		sb.WriteString("(assert " + r + ")\n")
 	}
-	cmd += "(check-sat)\n"
-	lines, err := s.roundTrip(cmd)
+	sb.WriteString("(check-sat)\n")
+	if len(names) > 0 {
+		sb.WriteString("(get-value (" + strings.Join(names, " ") + "))\n")
+	}
+	sb.WriteString("(pop 1)\n")
+	lines, err := s.roundTrip(sb.String())
 	if err != nil {
 		return Unknown, nil, err
 	}
 	res := Unknown
 	bad := ""
-	for _, l := range lines {
+	resIdx := -1
+	for i, l := range lines {
 		switch {
 		case l == "sat":
 			res = Sat
+			resIdx = i
 		case l == "unsat":
 			res = Unsat
+			resIdx = i
 		case l == "unknown":
 			res = Unknown
-		case strings.HasPrefix(l, "(error") || strings.Contains(l, "error"):
+			resIdx = i
+		case strings.HasPrefix(l, "(error"):
+			if resIdx >= 0 && res != Sat && (strings.Contains(l, "model is not available") || strings.Contains(l, "cannot get value") || strings.Contains(l, "Cannot get")) {
+				continue // get-value after unsat/unknown
+			}
 			bad = l
 		}
+		if resIdx >= 0 && res == Sat {
+			break
+		}
+	}
+	if resIdx < 0 && bad == "" {
+		bad = "no answer from solver: " + strings.Join(lines, " | ")
 	}
 	if bad != "" {
 		s.Errors = append(s.Errors, bad)
@@ -168,14 +193,13 @@ func (s *Solver) Check(extra *Term, wantModel []*Term) (Result, map[string]uint6
 	}
 	var model map[string]uint64
 	if res == Sat && len(names) > 0 {
-		ml, err := s.roundTrip("(get-value (" + strings.Join(names, " ") + "))\n")
-		if err != nil {
-			return Unknown, nil, err
+		rest := strings.Join(lines[resIdx+1:], " ")
+		if strings.Contains(rest, "(error") {
+			s.Errors = append(s.Errors, rest)
+			res = Unknown
+		} else {
+			model = parseValues(rest, wantModel)
 		}
-		model = parseValues(strings.Join(ml, " "), wantModel)
-	}
-	if _, err := s.roundTrip("(pop 1)\n"); err != nil {
-		return Unknown, nil, err
 	}
 	switch res {
 	case Sat:
